@@ -96,6 +96,41 @@ def run(chk, prog):
         else:
             chk.fail("R1", site, "renormalisation factor updated by '%s'" % a.op, "updateCSR:renorm-op:%s" % a.op)
             ren_ok = False
+    # Parseval clause: the equality with the wake's energy loss is stated for the unfiltered spectrum, so without a cut-off
+    # (cutoff_frequency <= 0) the factor in front of Re Z |F|^2 is _formfactorrenorm itself, not a limit of the high-pass formula
+    def no_cutoff(e):
+        if e is None:
+            return None
+        for t in list(e.atoms(sp.Function)):
+            if str(t.func) == "ite" and "cutoff_frequency" in str(t.args[0]):
+                c_ = str(t.args[0]).replace(" ", "").strip("()")
+                if c_ in ("cutoff_frequency>0", "0<cutoff_frequency", "cutoff_frequency>0.0"):
+                    e = e.subs(t, t.args[2])
+                elif c_ in ("cutoff_frequency<=0", "0>=cutoff_frequency", "!(cutoff_frequency>0)"):
+                    e = e.subs(t, t.args[1])
+                else:
+                    raise AnalysisBroken("updateCSR: condition `%s` on the cut-off frequency not understood" % t.args[0])
+        return e
+    vnc = None
+    for a in ren_defs:
+        pos_guard = any(("cutoff_frequency>0" in A.show(g).replace(" ", "").replace("(", "").replace(")", "")) for g, pol in a.guards
+                        if pol and isinstance(g, dict) and g.get("k") not in ("SwitchCase", "Catch"))
+        neg_guard = any(("cutoff_frequency>0" in A.show(g).replace(" ", "").replace("(", "").replace(")", "")) for g, pol in a.guards
+                        if (not pol) and isinstance(g, dict) and g.get("k") not in ("SwitchCase", "Catch"))
+        if pos_guard:
+            continue                    # runs only with a cut-off
+        v_ = a.value if a.value is not None else s._try(a.value_node)
+        v_ = no_cutoff(v_)
+        if a.op == "=":
+            vnc = v_
+        elif a.op == "*=" and vnc is not None and v_ is not None:
+            vnc = vnc * v_
+        else:
+            vnc = None
+            break
+    ok_nc = vnc is not None and sp.simplify(vnc - sp.Symbol("_formfactorrenorm", real=True)) == 0
+    chk.check(ok_nc, "R2", A.loc(fn, {"line": ren_defs[0].line}), "without a cut-off (cutoff_frequency <= 0) the spectrum factor is _formfactorrenorm itself (got %s)"
+              % (sp.simplify(vnc) if vnc is not None else None), "updateCSR:no-cutoff-factor:%s" % (sp.simplify(vnc) if vnc is not None else None))
     sp_st = [a for a in s.accesses if a.kind == "store" and a.base == "_csrspectrum" and a.idx is not None]
     A.require(len(sp_st) == 1, "updateCSR: store to the spectrum not found")
     a = sp_st[0]
